@@ -318,7 +318,13 @@ struct C20 : Property
 				// a fault was injected but the call still produced a value: it must be the right one
 				if (e.result != r1 && e.result != r2)
 					bad(ctx, "wrong-result", e, faults, "a fault was injected, the call returned %s instead of failing or returning %s", e.result.substr(0, 200).c_str(), r1.substr(0, 200).c_str());
-				if (e.injected)
+				bool transient_only = true;
+				for (auto &f : faults)
+					if (f.kind == "io")
+						for (auto v : f.a)
+							if (v < 0 && v != -EINTR && v != -EAGAIN)
+								transient_only = false;
+				if (e.injected && !transient_only)
 					bad(ctx, "read-error-ignored", e, faults, "read() failed with an injected errno and the call still returned a value");
 			}
 			if (e.failed && (e.errmsg.empty() || e.errmsg == sentinel))
@@ -407,7 +413,10 @@ struct C20 : Property
 			ctx.count("fault.io_errno.configured");
 			if (e.injected)
 				ctx.count("fault.io_errno.fired");
-			if (!e.failed && e.injected)
+			// EINTR / EAGAIN are transient: json-c reports them as failures today, an implementation that retries and then delivers
+			// exactly the right bytes / value is equally within the property (exec() has already verified the bytes or the value)
+			bool transient = en == EINTR || en == EAGAIN;
+			if (!e.failed && e.injected && !transient)
 			{
 				ctx.refine_op = 1;
 				ctx.refine_faults = {f};
